@@ -7,7 +7,7 @@
 //   close lvl=<conn|sess> eof=<x0|x3|slow|ign> term=<dfl|h0|hslow|ign> self=<no|x0|x2> out=<ok|garbage>
 //         td=<ms> dflt=<0|1> pre=<none|init> second=<no|conn|rwc> pending=<0|1> conc=<0|1> slack=<buckets>
 //   ->    connect=<ok|err> res=<nil|exiterr|stdin|done|unresp|waited2|hang|other> eb=<n> death=<e0|en|st|sk|so|nr>
-//         term=<t0|t<k>> eof=<0|1> gone=<0|1> leak=<0|1> second=<na|same|diff|stdin|nil|hang|other> pend=<na|ok|err|hang>
+//         term=<tno|tneg|t<k>> eof=<0|1> gone=<0|1> leak=<0|1> second=<na|same|diff|stdin|nil|hang|other> pend=<na|ok|err|hang>
 //   srvrun via=<io> end=<eof|cancel|both> pre=<none|init>  ->  ret=<nil|err|canceled|hang> sessions=<n> leak=<0|1>
 // Time appears only as BUCKETS in units of the case's TerminateDuration: eb = floor(elapsed of Close / TD),
 // t<k> = floor((instant the child saw SIGTERM - instant Close was called) / TD).  The monitor judges lower
@@ -519,14 +519,14 @@ func verifRunCmdCase(dir string, idx int, c verifCmdCase) (obs string, tags []st
 			}
 		}
 	}
-	termSeen, eofSeen := "t0", "0"
+	termSeen, eofSeen := "tno", "0"
 	if b, err := os.ReadFile(logp); err == nil {
 		for _, l := range strings.Split(string(b), "\n") {
 			f := strings.Fields(l)
-			if len(f) >= 1 && (f[0] == "eof" || f[0] == "run") && termSeen == "t0" {
+			if len(f) >= 1 && (f[0] == "eof" || f[0] == "run") && termSeen == "tno" {
 				eofSeen = "1" // the child saw EOF on its stdin (or Server.Run returned) before any SIGTERM it logged
 			}
-			if len(f) == 2 && f[0] == "term" && termSeen == "t0" {
+			if len(f) == 2 && f[0] == "term" && termSeen == "tno" {
 				ns, _ := strconv.ParseInt(f[1], 10, 64)
 				k := (ns - t0.UnixNano()) / int64(tdEff)
 				if ns < t0.UnixNano() {
